@@ -576,6 +576,34 @@ func TestC13_K_SharedSubtrees(t *testing.T) {
 	} else if steps > 2*2*16+10 {
 		fmt.Printf("FINDING property=C13 key=C13-shared-subtree-iteration :: full iteration of a 16-block sharded directory whose shards are each linked twice took %d steps (2 x links + 10 = %d): work grows as 2^blocks\n", steps, 2*2*16+10)
 	}
+	// the same construction for files: every level links one all-empty child twice (BlockSizes [0,0], FileSize 0). The reader
+	// opens an empty child that sits at the read offset (so that every block of a file is requested, C06/C20 - the repair of
+	// F12), and without a per-read memo it does so once per PATH
+	{
+		var node *mnode = &mnode{IsRaw: true, Raw: nil}
+		for level := 0; level < 13; level++ {
+			node = &mnode{HasData: true, UFS: &ufsFields{Type: 2, BlockSizes: []uint64{0, 0}, FileSize: u64p(0)},
+				Links: []mlink{{Tsize: i64p(0), Child: node}, {Tsize: i64p(0), Child: node}}}
+		}
+		fst := NewStore()
+		fls := fst.LinkSystem()
+		froot, err := node.store(fst, fls)
+		if err != nil {
+			t.Fatal(err)
+		}
+		frn, err := loadReified(fls, froot, "unixfs")
+		if err != nil {
+			t.Fatalf("reify: %v", err)
+		}
+		fst.ResetLogs()
+		fst.LoadBudget = 1 << 20
+		p, _ := safe(func() { _, _ = frn.AsBytes() })
+		if p != nil {
+			fmt.Printf("FINDING property=C13 key=C13-shared-empty-file-panic :: reading a 14-block file of shared empty subtrees panicked: %v\n", p)
+		} else if loads := len(fst.ReadLog()); loads > 200*fst.Len() {
+			fmt.Printf("FINDING property=C13 key=C13-shared-empty-file-subtrees :: reading a %d-block, zero-length file whose every node links one all-empty child twice took %d block loads (budget 200 x blocks = %d): work grows as 2^blocks\n", fst.Len(), loads, 200*fst.Len())
+		}
+	}
 	// Length() and lookups on a 40-block chain (2^39 paths) must return promptly: they are memoised per shard / follow one path
 	st2 := NewStore()
 	ls2 := st2.LinkSystem()
